@@ -792,6 +792,62 @@ def gen_sync_case(rng):
     return cs
 
 
+def gen_reject_readd_case(rng, ndef=None, miss=None):
+    """add_config failing part-way (a missing default-typed / typed variable at a chosen position, size or period rejection),
+    then the SAME LogConfig added again against another table (reconnect), possibly several times, then created"""
+    cs = Case('rejectreadd')
+    nt = 14
+    full = [(k, rng.choice([k, 100 + k, 13 - k]) if False else k, TYPE_NAMES[k % 8]) for k in range(nt)]
+    ndef = rng.randrange(1, 7) if ndef is None else ndef
+    ntyped = rng.choice([0, 0, 1, 2])
+    dnames = rng.sample(range(nt), ndef) if rng.random() < 0.85 else [rng.randrange(nt) for _ in range(ndef)]
+    tnames = [rng.randrange(nt) for _ in range(ntyped)]
+    v2 = rng.random() < 0.9
+
+    def table(missing, base):
+        return [(k, base + i, ct) for i, (k, _, ct) in enumerate(e for e in full if e[0] not in missing)]
+    first_missing = {dnames[miss if miss is not None else rng.randrange(ndef)]} if rng.random() < 0.85 or miss is not None else set()
+    if tnames and rng.random() < 0.2:
+        first_missing.add(rng.choice(tnames))
+    for l in connect_lines(5 if v2 else 1, table(first_missing, rng.choice([0, 20]))):
+        cs.do(l)
+    cs.do('newconf %d' % rng.choice([100, 100, 100, 100, 5, 2550]))
+    order = [('d', n) for n in dnames] + [('t', n) for n in tnames]
+    if rng.random() < 0.5:
+        rng.shuffle(order)
+    for kind, n in order:
+        cs.do('addvar 0 %d %s' % (n, '-' if kind == 'd' else rng.choice(TYPE_NAMES)))
+    if rng.random() < 0.15:
+        for _ in range(rng.choice([8, 20])):
+            cs.do('addvar 0 %d uint32_t' % rng.randrange(nt))          # too large
+    cs.do('addconfig 0')
+    cs.do('dump 0')
+    if rng.random() < 0.3:
+        cs.do('start 0')
+    for attempt in range(rng.choice([1, 1, 2, 3])):
+        cs.do('linklost')
+        missing = set()
+        if attempt < 2 and rng.random() < 0.35:
+            missing = {rng.choice(dnames + tnames)}
+        if rng.random() < 0.15:
+            v2 = not v2
+        for l in connect_lines(5 if v2 else 1, table(missing, rng.choice([0, 7, 300]) if v2 else rng.choice([0, 7]))):
+            cs.do(l)
+        if rng.random() < 0.1:
+            cs.do('addvar 0 %d %s' % (rng.randrange(nt), rng.choice(['-'] + TYPE_NAMES)))
+        cs.do('addconfig 0')
+        cs.do('dump 0')
+        cs.do('start 0')
+        c = cs.r.confs[0]
+        if c.cf is not None and rng.random() < 0.7:
+            cs.do('rx 1 %s' % hexs([6 if c.useV2 else 0, c.id, 0]))
+            cs.do(cs.data_line(rng, 0, mangle=False))
+            if rng.random() < 0.5:
+                cs.do('delete 0')
+                cs.do('rx 1 %s' % hexs([2, c.id, rng.choice([0, 2])]))
+    return cs
+
+
 def gen_malformed_case(rng):
     cs = Case('malformed')
     els = make_toc(rng, 6)
@@ -881,6 +937,11 @@ def gen_cases(ctx):
         cases.append(gen_boundary_case(rng, n, True, rng.choice([0, 250, 65500])))
     for n in (0, 1, 13, 14, 15, 26, 27):
         cases.append(gen_boundary_case(rng, n, False, rng.choice([0, 245])))
+    for ndef in range(1, 7):                      # a missing default-typed variable at EVERY position of the list
+        for miss in range(ndef):
+            cases.append(gen_reject_readd_case(rng, ndef, miss))
+    for _ in range(3000 if th else 500):
+        cases.append(gen_reject_readd_case(rng))
     for _ in range(400 if th else 80):
         cases.append(gen_boundary_case(rng, rng.randrange(8, 28), rng.random() < 0.85, rng.choice([0, 100, 250, 65500])))
     for _ in range(9000 if th else 1500):
@@ -1111,6 +1172,75 @@ def search(ctx):
         if after != before or not rep.startswith('ok '):
             ctx.witness('D6-readd-duplicates', 'add_config on an already resolved LogConfig (reconnect + re-add) changes its variable list',
                         {'default_typed': ndef, 'typed': ntyped}, before=len(before), after=len(after), second_add_config=rep.split(' ')[0])
+            break
+
+    # (5b) REJECTED then re-added: after any sequence of failed and successful add_config calls against different tables the
+    #      variable list is the configured list, once each and in order; a failed add_config sends nothing; the create messages of
+    #      the finally accepted configuration enumerate exactly the configured variables
+    full = [(k, k, TYPE_NAMES[k % 8]) for k in range(14)]
+    plans = [(nd, m, nty) for nd in range(1, 7) for m in range(nd) for nty in (0, 2)]
+    for trial in range(len(plans) + (1500 if th else 250)):
+        if trial < len(plans):
+            ndef, miss, ntyped = plans[trial]
+        else:
+            ndef = rng.randrange(1, 8)
+            miss, ntyped = rng.randrange(ndef), rng.choice([0, 1, 3])
+        dnames = rng.sample(range(14), ndef)
+        tvars = [(rng.randrange(14), rng.choice(TYPE_NAMES)) for _ in range(ntyped)]
+        r = Real()
+        r.do(['newconf', str(rng.choice([100, 100, 100, 5]))])
+        c = r.confs[0]
+        for n in dnames:
+            c.add_variable(name_str(n))
+        for n, t in tvars:
+            c.add_variable(name_str(n), t)
+        configured = sorted([(n, TYPE_IDS[TYPE_NAMES[n % 8]]) for n in dnames] + [(n, TYPE_IDS[t]) for n, t in tvars])
+        hist = []
+        # attempts: each against a table that lacks some configured names (possibly none)
+        nfail = rng.choice([1, 1, 2, 3])
+        attempts = []
+        for a in range(nfail):
+            lack = {dnames[miss]} if a == 0 else set(rng.sample(dnames + [n for n, _ in tvars], rng.randrange(0, 2)))
+            attempts.append(lack)
+        attempts.append(set())
+        ok = True
+        for a, lack in enumerate(attempts):
+            base = rng.choice([0, 9, 300])
+            els = [(k, base + i, ct) for i, (k, _, ct) in enumerate(e for e in full if e[0] not in lack)]
+            if a:
+                r.do(['linklost'])
+            _connect(r, 5, els)
+            rep = r.do(['addconfig', '0'])
+            hist.append({'table_lacks': sorted(lack), 'add_config': rep.split(' ')[0]})
+            if 'tx:' in rep:
+                ctx.witness('add-config-sends', 'add_config transmitted a packet', {'history': hist}, reply=rep[:200])
+            now = [name_key(v.name) for v in c.variables] + [name_key(n) for n in c.default_fetch_as]
+            if sorted(now) != sorted(n for n, _ in configured):
+                ctx.witness('readd-after-reject-changes-variables', 'after a rejected add_config and a re-add the LogConfig no longer holds exactly its '
+                            'configured variables (once each)', {'default_typed': dnames, 'typed': tvars, 'history': hist}, holds=now)
+                ok = False
+                break
+            payload = sum(TYPE_SIZE[t] for _, t in configured)
+            want_accept = not (lack & set(n for n, _ in configured)) and payload <= 26 and c.period > 0
+            if rep.startswith('ok ') != want_accept:
+                ctx.witness('accept-iff', 'add_config accepts/rejects against the stated condition', {'default_typed': dnames, 'typed': tvars, 'history': hist},
+                            payload=payload)
+                ok = False
+                break
+            if want_accept:
+                ident = {k: i for (k, i, _) in els}
+                expected = sorted(((v.stored_as << 4) | v.fetch_as, ident[name_key(v.name)]) for v in c.variables)
+                rep2 = r.do(['start', '0'])
+                msgs = _tx(r.ev)
+                seen = [e for m in msgs for e in _fw_entries(m)]
+                want = sorted((t << 4 | t, ident[n]) for n, t in configured)
+                if not rep2.startswith('ok ') or sorted(seen) != want or len(seen) != len(configured) or c.default_fetch_as or any(len(m) > 30 for m in msgs):
+                    ctx.witness('readd-after-reject-changes-variables', 'the create messages of a configuration accepted after an earlier rejection do not '
+                                'enumerate exactly its configured variables', {'default_typed': dnames, 'typed': tvars, 'history': hist},
+                                firmware_view=seen, expected=want)
+                    ok = False
+                break
+        if not ok:
             break
 
     # (6) raw-memory variables (D8)
